@@ -543,6 +543,18 @@ let spec_check (know : int list) (s : sx) =
           (fun () -> "Map<K,Orswot> without key removes: the complete state (map clock, keys, entry clocks, nested sets with witness clocks and parked removes) differs from the specification of the replica's knowledge") okv;
         classes := saved
       end;
+      (* EXPERIMENT (statement validation): Map<K, Orswot> WITH key removes and merges, outside the history classes of
+         T2 (a removed key with two updates of one actor) and T3 (a removed key with an update carrying a nested remove) *)
+      if !ty = "mapor" && !all_per_actor && !merges_seen then begin
+        let cls = Known.classify !ty (List.rev_map (fun (_, o, _) -> o) !hist) in
+        if not (List.mem_assoc "T2" cls) && not (List.mem_assoc "T3" cls)
+           && List.exists (fun (_, o, _) -> Known.is_rm o) !hist then begin
+          let okv = movalspec_ok (history_of (mop_sx or_inst)) k (cmap_sx or_inst s) in
+          stat ("mapkm_" ^ (if okv then "ok" else "bad"));
+          if not okv && (try Sys.getenv "VERIF_SHOW_M2" = "1" with Not_found -> false) then
+            Printf.printf "KMBAD case=%s cmd=%s\n" (fst !cur) (snd !cur)
+        end
+      end;
       (* value level at depth 2, Map<K1, Map<K2, Orswot>>, causal op-based delivery: theorems
          C05_map2_values_refine / C05_map2_valspec_ok / C01_map2_converge (proofs/MapMapOrswot.v);
          theorem-backed, never attributed to a known finding *)
